@@ -1,9 +1,13 @@
 package checks
 
 import (
+	"encoding/json"
 	"fmt"
+	"os"
+	"os/exec"
 	"runtime"
 	"runtime/debug"
+	"strings"
 	"testing"
 
 	"github.com/cloudwego/frugal"
@@ -18,13 +22,15 @@ type c18Case struct {
 	TV
 	Cell string `json:"cell,omitempty"`
 	// First: how the type is used for the first time, before the pointer calls that are measured:
-	// 0 by pointer, 1 by value (size and encode), 2 by decoding into it, 3 nested inside a wrapper type
+	// 0 by pointer, 1 by value (size and encode), 2 by decoding into it, 3 nested inside a wrapper type,
+	// 4 by pointer with an all-empty value (nil containers, nil pointers): the populated value is
+	// then measured in one shot, without a warm-up of its own
 	First int `json:"first,omitempty"`
 }
 
 func genC18(t *rapid.T) c18Case {
 	c := genC18Inner(t)
-	c.First = rapid.SampledFrom([]int{0, 0, 1, 1, 2, 3}).Draw(t, "firstuse")
+	c.First = rapid.SampledFrom([]int{0, 0, 1, 1, 2, 3, 4, 4}).Draw(t, "firstuse")
 	return c
 }
 
@@ -106,6 +112,29 @@ func (r *c18Runner) run(c c18Case) *Failure {
 		ws := &core.StructSpec{Fields: []*core.FieldSpec{{Name: "Wrapped_1", ID: 1, Req: core.Optional, Type: wt}}}
 		if _, f := encodeExact(core.Bind(ws).New().Interface()); f != nil {
 			return f
+		}
+	case 4:
+		d, f := c18EmptyThenPopulated(c)
+		if f != nil {
+			return f
+		}
+		if d != 0 {
+			// one shot cannot be repeated here (the type is warm now): ask a fresh process, twice
+			confirmed := 0
+			for k := 0; k < 2; k++ {
+				cd, err := c18Child(c)
+				if err != nil {
+					r.w.label("first-populated-value: child process unavailable")
+					break
+				}
+				if cd != 0 {
+					confirmed++
+				}
+			}
+			if confirmed == 2 {
+				return failf("allocates-on-first-populated-value", "after the type had been used with an empty value, EncodedSize+EncodeObject on a populated value allocated %d object(s) (confirmed twice in fresh processes) (type %s)", d, c.S.Sig())
+			}
+			r.w.label("first-populated-value: allocation not confirmed")
 		}
 	}
 	r.w.label(fmt.Sprintf("first-use:%d", c.First))
@@ -211,6 +240,94 @@ func (r *c18Runner) run(c c18Case) *Failure {
 	}
 	r.w.count(nonEmpty, c.S.Sig()+itoa(s), c, labels...)
 	return nil
+}
+
+// c18EmptyThenPopulated uses the type with its zero value (every container and pointer nil), then
+// counts the heap objects allocated by one EncodedSize and one EncodeObject on the populated value.
+func c18EmptyThenPopulated(c c18Case) (uint64, *Failure) {
+	b := core.Bind(c.S)
+	empty := b.New()
+	if b.Spec.HasInit {
+		empty.Interface().(interface{ InitDefault() }).InitDefault()
+	}
+	for k := 0; k < 3; k++ {
+		if _, f := encodeExact(empty.Interface()); f != nil {
+			return 0, f
+		}
+	}
+	src := b.NewValue(c.V)
+	pv := src.Interface()
+	buf := make([]byte, len(core.RefEncode(c.S, c.V))+256)
+	// the Go runtime itself allocates once per map *value* when a map without pointers in its buckets is
+	// iterated for the first time (overflow bookkeeping): walk the value once, without frugal, so
+	// that only what the codec allocates is counted
+	b.Lift(src.Elem())
+	var ms runtime.MemStats
+	var n1, n2 int
+	var e2 error
+	runtime.ReadMemStats(&ms)
+	before := ms.Mallocs
+	n1 = frugal.EncodedSize(pv)
+	n2, e2 = frugal.EncodeObject(buf, nil, pv)
+	runtime.ReadMemStats(&ms)
+	d := ms.Mallocs - before
+	if e2 != nil || n1 != n2 {
+		return 0, failf("encode-error", "size=%d n=%d err=%v", n1, n2, e2)
+	}
+	return d, nil
+}
+
+// c18Child runs c18EmptyThenPopulated in a brand-new process.
+func c18Child(c c18Case) (uint64, error) {
+	js, _ := json.Marshal(c)
+	fl, err := os.CreateTemp("", "c18case-*.json")
+	if err != nil {
+		return 0, err
+	}
+	defer os.Remove(fl.Name())
+	fl.Write(js)
+	fl.Close()
+	cmd := exec.Command(os.Args[0], "-test.run", "^TestC18Single$")
+	for _, e := range os.Environ() {
+		if strings.HasPrefix(e, "VERIF_OUT=") || strings.HasPrefix(e, "VERIF_FAILDIR=") || strings.HasPrefix(e, "VERIF_JOURNAL=") || strings.HasPrefix(e, "VERIF_REPLAY=") {
+			continue
+		}
+		cmd.Env = append(cmd.Env, e)
+	}
+	cmd.Env = append(cmd.Env, "VERIF_C18_SINGLE="+fl.Name())
+	out, err := cmd.CombinedOutput()
+	for _, line := range strings.Split(string(out), "\n") {
+		if strings.HasPrefix(line, "C18RESULT ") {
+			var d uint64
+			if _, serr := fmt.Sscanf(line, "C18RESULT %d", &d); serr == nil {
+				return d, nil
+			}
+		}
+	}
+	return 0, fmt.Errorf("no result (%v): %.300s", err, out)
+}
+
+func TestC18Single(t *testing.T) {
+	fn := os.Getenv("VERIF_C18_SINGLE")
+	if fn == "" {
+		t.Skip("helper of TestC18")
+	}
+	runtime.GOMAXPROCS(1)
+	debug.SetGCPercent(-1)
+	js, err := os.ReadFile(fn)
+	if err != nil {
+		t.Fatal(err)
+	}
+	var c c18Case
+	if err := json.Unmarshal(js, &c); err != nil {
+		t.Fatal(err)
+	}
+	d, f := c18EmptyThenPopulated(c)
+	if f != nil {
+		fmt.Println("C18RESULT 0")
+		return
+	}
+	fmt.Printf("C18RESULT %d\n", d)
 }
 
 func TestC18(t *testing.T) {
